@@ -21,7 +21,7 @@ def hash_use_scan():
 TABLE_OPS_FOR = {
     "C05": ["set_move", "set_move_moving", "rem", "clear", "del", "rehash", "assign"],
     "C11": ["iter"],
-    "C12": ["lookup", "rem"],
+    "C12": ["lookup", "rem", "resize_request"],
     "C19": ["lookup", "lookup_own", "iter"],
     "C01": ["mark"],
     "C14": ["show"],
@@ -75,6 +75,7 @@ def jobs(tier):
         add("assign.m%d" % mop, "h_assign", 3, ["Table_Assign", "Table_Clear"], defs=["MOP=%d" % mop], rc=["Table_Set_Move:cv_set_move_asg"], unwind=14)
     add("policy", "h_policy", 1, ["Table_Ideal_Size", "Table_Resize_More", "Table_Resize_Less"], rc=["Table_Rehash:cv_rehash_stub"], unwind=123)
     add("probe", "h_probe", 1, ["Table_Probe"])
+    add("resize_request", "h_resize_request", 1, ["Table_Resize", "Table_Ideal_Size"], rc=["Table_Rehash:cv_rehash_stub"], unwind=123)
     if not scan_ok:
         J.append(Job("C02.hash_use_scan", "C02", "K3", "Table/nonexistent.c", "h", []))   # turns into an ERROR (extraction break)
     return J
